@@ -1104,9 +1104,9 @@ func (fr *Frame) sliceOp(x *ssa.Slice) Value {
 			panic(pathEnd{"nil dereference"})
 		}
 		if len(b.Path) != 0 {
-			// array embedded in a struct: supported only for whole-object arrays
-			// represent as view on sub-array: not needed so far
-			unsup("slicing an array field")
+			// array embedded in a struct: its contents move to a shadow object of their own (the struct keeps an
+			// indirection marker), so that slices of it and accesses through the struct see the same memory
+			o = s.embedArray(o, b.Path)
 		}
 		return &SliceV{Obj: o, Off: lo, Len: Sub(hi, lo), Cap: Sub(n, lo), Elem: at.Elem()}
 	case *StringV:
